@@ -1381,4 +1381,18 @@ theorem css_raw_retokenises_counterexample : ¬ css_raw_retokenises_full := by
   simp [rawFlat, significant, S, Tok.tt, Tok.data] at e2
 
 
+open Verif.Model.C09Css in
+/-- the same on the raw path of the model's `minifyDeclaration` -/
+theorem css_declaration_retokenises_raw (o : Opts) (prop : List Char) (comps : List Tok) (p : Plan) (k : List Char)
+    (hp : declPlan o prop comps = some p) (hr : p.raw = true) (hv : rawOk p.toks = true) (hk : stopStr k = true)
+    (hkw : isWs (k.headD 'x') = false) :
+    minifyDeclaration o prop comps = some (writePlan p) ∧
+    ∃ n', k.length ≤ n' ∧
+      significant (tokenise (writePlan p ++ k)) =
+        significant (p.toks.flatMap rawFlat) ++ importantToks p.important ++ significant (tokAux n' k []) := by
+  refine ⟨by rw [minifyDeclaration_eq_plan, hp]; rfl, ?_⟩
+  simp only [writePlan, hr, if_true]
+  exact css_raw_retokenises p.toks p.important k hv hk hkw
+
+
 end Verif.Proofs.C09Css
